@@ -10,6 +10,7 @@ import warnings
 from datetime import datetime, timezone, timedelta
 
 from .. import pool
+from ..ref import sig as RS
 
 W0_COUNTER = 'C17_verdicts'   # thorough tier: the repository's own tests run under this property's always-on monitor
 LEVEL = 'exploration'
@@ -18,7 +19,7 @@ RULE = ('(i) exhaustive: case = block of forced issue bit-sets x {correct, wrong
         'advisory bit present, or an expired/revoked real key; distinct = distinct (bit-set, variant) or real-case descriptors')
 ASSUMPTIONS = ['the set of disqualifying conditions is the one the library documents in SecurityIssues.causes_signature_verify_to_fail: '
                'WrongSig, Expired, Disabled, Invalid, NoSelfSignature', 'forcing the soundness result replaces only the *input* of the aggregator']
-MIN_COUNTERS = {'forced_verdicts': 8000, 'partition_checked': 8000, 'real_verdicts': 40, 'real_expired': 8, 'monotonic_pairs': 10000, 'same_second_pairs': 12, 'rewritten_hash_octets': 200}
+MIN_COUNTERS = {'forced_verdicts': 8000, 'partition_checked': 8000, 'real_verdicts': 40, 'real_expired': 8, 'monotonic_pairs': 10000, 'same_second_pairs': 12, 'rewritten_hash_octets': 200, 'out_of_range_rsa_signatures': 40}
 BUDGET = {'quick': (600, 1500), 'thorough': (1200, 3600)}
 TECHNIQUE = 'runtime monitoring: fault enumeration at the verdict aggregator (all 2^11 issue bit-sets) + verdict-model oracle + partition invariant on every result'
 
@@ -259,6 +260,28 @@ def _real(ctx, d, pgpy, SI):
         ctx.outcome('rewritten_hash_octet:' + ('truthy' if sv else 'falsy'))
         if sv or good:
             ctx.fail('wrong-signature-listed-good', {'case': d, 'subject': 'document', 'hash_octet_rewritten_to': hid, 'issues': [str(x.issues) for x in sv._subjects]})
+    # RSA: the signature integer made longer than the modulus (its low-order octets still the genuine value), or raised by the modulus: out of range,
+    # so never good
+    if pool.mat(d['key'])['alg'] in (1, 3):
+        from ..ref.wire import mpi_enc as _mpi_enc
+        psg = RS.parse_sig(sp_.body)
+        n_ = pool.mat(d['key'])['n']
+        klen = (n_.bit_length() + 7) // 8
+        s0 = psg['mpis'][0]
+        for label, s1 in (('one-octet-longer', s0 + (1 << (8 * klen))), ('two-octets-longer', s0 + (0x0102 << (8 * klen))), ('raised-by-the-modulus', s0 + n_), ('raised-by-twice-the-modulus', s0 + 2 * n_)):
+            body = sp_.body[:psg['mpi_offset']] + _mpi_enc(s1)
+            mraw = W_.new_hdr(2, len(body)) + body
+            ctx.count('out_of_range_rsa_signatures')
+            ctx.count('evaluations')
+            try:
+                s2 = pgpy.PGPSignature.from_blob(mraw)
+                sv = pub.verify(doc, s2)
+            except Exception as e:
+                ctx.outcome('out_of_range_rsa:refused:' + type(e).__name__)
+                continue
+            good, bad = check_partition(ctx, sv, {'case': d, 'rsa_integer': label})
+            if sv or good:
+                ctx.fail('wrong-signature-listed-good', {'case': d, 'subject': 'document', 'signature_integer': label})
     # the verifying key as an attacker would like it to read: a never-expires / expires-in-a-century (for expired keys) or an expires-after-one-
     # second (for valid ones) key-expiration subpacket appended to the unsigned area of its self-signatures: the verdict must not move
     from .. import unhashed
